@@ -29,6 +29,7 @@ type W2Opt struct {
 	NilTagPct   int  // requests that make the engine panic on the caller's goroutine
 	OptPct      int
 	UpdFromRule bool
+	ThinPct     int  // % of runs whose rules use nothing but H, Req and optional names, so that the two-object entry point can serve them
 	Flood       bool // a few waiter rounds have hundreds of requests waiting at once
 	BigPools    bool // a few runs use pools of 33-70 instances
 	Prelude     bool // in some runs the pool goes through a management history that ends in the initial set before the clients start
@@ -387,6 +388,17 @@ func RunW2(opt *W2Opt, plan, sched *simrt.Source, trace bool) *RunOut {
 	o := &RunOut{}
 	cfg := g.GenConfig(trace)
 	p := opt.Prof
+	if g.Pct(opt.ThinPct) {
+		pp := *p
+		pp.Secs = map[int]int{}
+		for _, k := range []int{SecY, SecCall, SecLocal, SecReader, SecOpt, SecOptFn} {
+			if p.Secs[k] > 0 {
+				pp.Secs[k] = p.Secs[k]
+			}
+		}
+		pp.Rets = []int{RetNone, RetNestedV, RetReq}
+		p = &pp
+	}
 	rules := g.GenRuleSet(p)
 	text := RenderSet(rules)
 	g.Hist = append(g.Hist, initialOp(rules, text))
@@ -406,11 +418,15 @@ func RunW2(opt *W2Opt, plan, sched *simrt.Source, trace bool) *RunOut {
 		c := g.GenCall(&pp, rules, nextCall)
 		c.Client = client
 		nextCall++
-		if c.Method == MPoolEM && !sc.OnlyHReq {
-			c.Method = MPoolEMMulti
-		}
 		c.HasOpt = g.Pct(opt.OptPct)
 		c.HasOptFn = g.Pct(opt.OptPct)
+		if c.Method == MPoolEM && !sc.OnlyHReq {
+			if sc.OnlyHReqOpt {
+				c.HasOpt, c.HasOptFn = false, false // the two-object entry point injects H and Req, nothing optional
+			} else {
+				c.Method = MPoolEMMulti
+			}
+		}
 		c.PresetTag = false // (requests overlap here: each has its own Stag)
 		c.OddKeys = g.Pct(12)
 		if HasTag(c.Method) && g.Pct(opt.NilTagPct) {
